@@ -13869,6 +13869,11 @@ int cgi_update_posit(int cnt, int *index, char **label)
     }
 
     for (n = 0; n < cnt; n++) {
+        if (strlen(label[n]) > 32) {
+            posit = 0;
+            cgi_error("node name or label in path is too long");
+            return CG_ERROR;
+        }
         if (index[n] > 0) {
             strcpy(lab, label[n]);
             *name = 0;
